@@ -204,7 +204,7 @@ struct DataNodeTR {
    {
       DataNodeRef a = n.InsertOrderedChild(c.data, "", "", NULL, NULL, NULL), b = n.InsertOrderedChild(c.data, "", "", NULL, NULL, NULL);
       s.A("InsertOrderedChild-generated-names", std::string(a() ? a()->GetNodeName()() : "(failed)") + "," + (b() ? b()->GetNodeName()() : "(failed)"));
-      s.A("path of first generated child", a() ? a()->GetNodePath()() : "(failed)"); s.N("index length", n.GetIndex() ? (long long)n.GetIndex()->GetNumItems() : -1); s.N("CalculateChecksum", n.CalculateChecksum());
+      s.N("index length", n.GetIndex() ? (long long)n.GetIndex()->GetNumItems() : -1); s.N("GetNumChildren", n.GetNumChildren());   // (paths and checksums of the children follow from the names)
    }
    static void FreeNodes(std::vector<Diff> &) {}
 };
@@ -379,9 +379,13 @@ template <class TR> static void RunCase(const std::vector<int> & seq, CaseOut & 
    static CompleteSetupSystem * css = NULL; if (css == NULL) css = new CompleteSetupSystem;
    typedef typename TR::T T;
    AbstractObjectRecycler::GlobalFlushAllCachedObjects();            // nothing is held: every pool is without slabs now
-   Snap probeFresh;
-   { typename TR::Ctx c; { Ref<T> fresh = TR::Obtain(c); if (fresh() == NULL) return; TR::Probe(c, *fresh(), probeFresh); } }
+   Snap probeFresh; ObjectPool<T> * pool = NULL;                     // (the pool is found through the manager pointer of an obtained object: works for function-local pools too)
+   { typename TR::Ctx c; { Ref<T> fresh = TR::Obtain(c); if (fresh() == NULL) return; pool = dynamic_cast<ObjectPool<T> *>(fresh()->GetManager()); TR::Probe(c, *fresh(), probeFresh); } }
    AbstractObjectRecycler::GlobalFlushAllCachedObjects();
+   if (pool == NULL || pool->_firstSlab != NULL) {
+      // the next object would not be a never-used one.  Every reference has been dropped, so a slab can only survive the flush when a recycled object still owns something
+      Diff d; d.field = "pool-not-empty-after-releasing-everything"; d.fresh = "no slabs"; d.recycled = pool ? "a slab is still in use" : "object has no ObjectPool manager"; out.diffs.push_back(d); out.sameStorage = true; return;
+   }
    typename TR::Ctx ctx;
    Ref<T> a = TR::Obtain(ctx); T * const addr = a(); if (addr == NULL) return;
    Snap fresh; TR::Snapshot(*addr, fresh); out.fields = (int)fresh.f.size();
